@@ -26,13 +26,20 @@ def wide_phase(chk):
     hists = widetable.walks(chk, 60 if thorough else 8, 20 if thorough else 12)
     outs = widetable.execute(hists)
     probs, st = widetable.judge(hists, outs)
+    # the same with the indexes created (and dropped) on the POPULATED table: WithDDL = TRUE
+    dh = widetable.walks(chk, 60 if thorough else 8, 20 if thorough else 12, n=700, ddl=True)
+    dprobs, dst = widetable.judge(dh, widetable.execute(dh, n=700, ddl=True), n=700)
+    late = sum(1 for h in dh for x in h if x["op"]["k"] == "create_index" and x["probes"]["count"] >= 100)
+    if not late:
+        raise vlib.ToolError("no WideTable walk created an index on a table of 100 rows or more")
+    st = dict(st, ddl_walks=len(dh), ddl_steps=dst["steps"], ddl_ok=dst["ok"], ddl_abandoned=dst["abandoned"], indexes_created_on_100_rows_or_more=late)
     sigs = {}
-    for h, kind, d in probs:
+    for h, kind, d, is_ddl in [p + (False,) for p in probs] + [p + (True,) for p in dprobs]:
         if kind != "index":
             continue
         sig = "wide:%s:%s" % (d["what"], h[-1]["op"]["k"])
         sigs[sig] = sigs.get(sig, 0) + 1
-        chk.classify(sig, {"behaviour": widetable.describe(h), "wide_hist": h, "detail": d})
+        chk.classify(sig, {"behaviour": widetable.describe(h), "wide_hist": h, "wide_ddl": is_ddl, "detail": d})
     if st["steps"] and st["abandoned"] > 0.5 * st["steps"]:
         raise vlib.ToolError("more than half of the WideTable steps were abandoned")
     if st["rows_max"] < 150:
@@ -57,4 +64,8 @@ def _run_small(chk):
 
 
 def replay(chk, path):
+    import json, widetable
+    rep = json.load(open(path))["replay"]
+    if "wide_hist" in rep:
+        return widetable.replay(chk, rep, "index")
     return relrun.replay_file(chk, path, relevant, signature)
